@@ -457,6 +457,11 @@ def timeName : Name := "Time_[Sec]".toList
 def transpose (ncol : Nat) (rows : List (List Rat)) : List (List Rat) :=
   (List.range ncol).map (fun j => rows.map (fun r => r.getD j 0))
 
+/-- one line of `load_csv`'s array, `[column][scan]`: zeros when the CSV is missing (`line is None`) -/
+def csvCols (ncol nscan : Nat) : Option Table → List (List Rat)
+  | none => List.replicate ncol (List.replicate nscan 0)
+  | some t => transpose ncol t.rows
+
 /-- `load_csv`: `acqNames = some names` when `use_acq_for_names` and AcqMethod.xml exists.
 `img[line][column][scan]` without the time column; `times` = the time column (named `Time_[Sec]`). -/
 def loadCsv {α : Type} (m : Meta) (files : List (DataFile α)) (acqNames : Option (List Name))
@@ -477,10 +482,7 @@ def loadCsv {α : Type} (m : Meta) (files : List (DataFile α)) (acqNames : Opti
     if !(tabs.all (fun t => match t with
         | none => true
         | some t => t.rows.length = nscan ∧ t.names.length = ncol)) then throw .value
-    let cols : List (List (List Rat)) := tabs.map (fun t =>
-      match t with
-      | none => List.replicate ncol (List.replicate nscan 0)   -- line blanked
-      | some t => transpose ncol t.rows)
+    let cols : List (List (List Rat)) := tabs.map (csvCols ncol nscan)
     let names := match acqNames with
       | none => t0.names
       | some new => renameFields t0.names new
